@@ -9,6 +9,9 @@
 //	C20.sweep32  exhaustive: int32/uint32, 1-argument calls (quick: the 65536-blocks that hold a boundary; thorough: all 2^32)
 //	C20.wide     boundary grid + rapid: all integer widths, floats, complex, strings, variadic lengths 0..6
 //	C20.util     rapid: Coal, Zero, ZeroOf, IsZero, Tern, TernCast, Ref, DerefZero, IsNil
+//	C20.special  grid + rapid: the same helpers at element types with special characteristics (methods that contradict == / the
+//	             zero value, interface-typed T, nil pointers, zero-size, non-comparable, -0, big values), Coal after long runs of zeros
+//	C20.long     grid + rapid: Min/Max/Sum/Product with 7..5000 arguments, Compare/Less/Min/Max/Clamp on strings of 7..5000 bytes
 package c20
 
 import (
@@ -123,4 +126,6 @@ func TestC20Triples(t *testing.T) { pbt.Check(t, specTriples) }
 func TestC20Sweep32(t *testing.T) { pbt.Check(t, specSweep32) }
 func TestC20Wide(t *testing.T)    { pbt.Check(t, specWide) }
 func TestC20Util(t *testing.T)    { pbt.Check(t, specUtil) }
+func TestC20Special(t *testing.T) { pbt.Check(t, specSpecial) }
+func TestC20Long(t *testing.T)    { pbt.Check(t, specLong) }
 func TestReplay(t *testing.T)     { pbt.Replay(t) }
